@@ -99,6 +99,7 @@ type c30World struct {
 	conns [2]*c30Conn
 	peers []*wire.Peer
 	dials [2]int // dial attempts started per address
+	inst  [2]int // scripted outcome of the next dial of address i: 0 wait for the script, 1 fail at once, 2 succeed at once
 	pubs  []c30Pub
 	obs   []c30Obs
 	cmd   *c30Cmd
@@ -135,8 +136,18 @@ func (w *c30World) dial(ctx context.Context, addr string) (net.Conn, error) {
 	if w.pend[i] != nil {
 		w.anomaly("two connection attempts of subchannel %d are in progress at the same time", i)
 	}
-	w.pend[i] = pd
+	inst := w.inst[i]
+	w.inst[i] = 0
+	if inst == 0 {
+		w.pend[i] = pd
+	}
 	w.mu.Unlock()
+	switch inst {
+	case 1:
+		return nil, errors.New("c30: scripted immediate dial failure")
+	case 2:
+		return w.newConn(i), nil
+	}
 	select {
 	case r := <-pd.ch:
 		return r.conn, r.err
@@ -166,12 +177,20 @@ func (w *c30World) resolveDial(i int, succeed, hsFail bool) bool {
 		pd.ch <- c30DialRes{err: errors.New("c30: scripted dial failure")}
 		return true
 	}
-	c, s := wire.Pipe()
 	if hsFail {
+		c, s := wire.Pipe()
 		s.Close()
 		pd.ch <- c30DialRes{conn: c}
 		return true
 	}
+	pd.ch <- c30DialRes{conn: w.newConn(i)}
+	return true
+}
+
+// newConn creates a connection whose server end is a raw HTTP/2 peer that
+// completes the preface (SETTINGS) and acknowledges SETTINGS/PING.
+func (w *c30World) newConn(i int) net.Conn {
+	c, s := wire.Pipe()
 	p := wire.NewServerPeer(s)
 	p.AutoAckSettings = true
 	p.AutoAckPing = true
@@ -180,8 +199,7 @@ func (w *c30World) resolveDial(i int, succeed, hsFail bool) bool {
 	w.peers = append(w.peers, p)
 	w.conns[i] = &c30Conn{peer: p}
 	w.mu.Unlock()
-	pd.ch <- c30DialRes{conn: c}
-	return true
+	return c
 }
 
 func (w *c30World) hasPending(i int) bool {
@@ -218,23 +236,24 @@ func (c30Builder) Build(cc balancer.ClientConn, _ balancer.BuildOptions) balance
 }
 
 type c30Policy struct {
-	w        *c30World
-	cc       balancer.ClientConn
-	gen      int
-	scs      []*c30SCRec
-	closed   bool
-	closeClk int
-	inCall   bool // a balancer callback is executing (callbacks must be serialized)
-	reports  int
+	w         *c30World
+	cc        balancer.ClientConn
+	gen       int
+	scs       []*c30SCRec
+	closed    bool
+	closeClk  int
+	inCall    bool // a balancer callback is executing (callbacks must be serialized)
+	reports   int
+	exitIdles int
 }
 
 func (p *c30Policy) enter(what string) {
 	p.w.mu.Lock()
 	if p.inCall {
-		p.w.anomaly("LB policy callback %s invoked while another callback is running", what)
+		p.w.anomaly("not-serialized: LB policy callback %s invoked while another callback is running", what)
 	}
 	if p.closed {
-		p.w.anomaly("LB policy callback %s invoked after Close", what)
+		p.w.anomaly("after-close: LB policy callback %s invoked after Close", what)
 	}
 	p.inCall = true
 	p.w.mu.Unlock()
@@ -276,7 +295,7 @@ func (p *c30Policy) UpdateClientConnState(s balancer.ClientConnState) error {
 	}
 	rec := p.scs[cmd.I]
 	switch cmd.Kind {
-	case c30EvConnect:
+	case c30EvConnect, c30EvConnFail, c30EvConnOK:
 		rec.connectCalls++
 		rec.sc.Connect()
 	case c30EvShutdown:
@@ -359,6 +378,10 @@ func (p *c30Policy) Close() {
 func (p *c30Policy) ExitIdle() {
 	p.enter("ExitIdle")
 	defer p.leave()
+	p.exitIdles++
+	if !p.w.auto {
+		return
+	}
 	for _, r := range p.scs {
 		if !r.shutdown && r.last() == connectivity.Idle {
 			r.connectCalls++
